@@ -511,3 +511,62 @@ func noWrap(v ssa.Value, hyps []Hyp, seen map[ssa.Value]bool, fail *[]string) {
 		noWrap(x.X, hyps, seen, fail)
 	}
 }
+
+// cmpUnder decides every integer comparison of fn whose operands are linear in
+// the symbols named by assign (matched by canonical-suffix), under that
+// assignment of concrete representatives. Used to evaluate decision tables by
+// class representatives without depending on how a comparison is spelled
+// (a >= b, !(a < b), b <= a, a+1 == b …).
+func cmpUnder(fn *ssa.Function, assign map[string]int64) map[ssa.Value]AV {
+	out := map[ssa.Value]AV{}
+	value := func(l Lin) (int64, bool) {
+		v := l.C
+		for s, c := range l.T {
+			found := false
+			for suf, x := range assign {
+				if s == suf || strings.HasSuffix(s, suf) {
+					v += c * x
+					found = true
+					break
+				}
+			}
+			if !found {
+				return 0, false
+			}
+		}
+		return v, true
+	}
+	for _, in := range instrsOf(fn) {
+		b, ok := in.(*ssa.BinOp)
+		if !ok || !isInteger(b.X.Type()) {
+			continue
+		}
+		switch b.Op {
+		case token.EQL, token.NEQ, token.LSS, token.LEQ, token.GTR, token.GEQ:
+		default:
+			continue
+		}
+		x, okx := value(linOf(b.X))
+		y, oky := value(linOf(b.Y))
+		if !okx || !oky {
+			continue
+		}
+		var res bool
+		switch b.Op {
+		case token.EQL:
+			res = x == y
+		case token.NEQ:
+			res = x != y
+		case token.LSS:
+			res = x < y
+		case token.LEQ:
+			res = x <= y
+		case token.GTR:
+			res = x > y
+		case token.GEQ:
+			res = x >= y
+		}
+		out[b] = avBool(res)
+	}
+	return out
+}
